@@ -55,7 +55,8 @@ Record case := Case {
   c_exp : list (list Z);               (* observed, per channel in creation order: the values received from it, in order *)
   c_obs_rets : list (list (list Z));   (* observed, per thread: the encoded result of every call that returned *)
   c_obs_timeouts : list Z;             (* observed: events passed to OnPubTimeout, sorted *)
-  c_obs_panic : bool;                  (* observed: the process died with "send on closed channel" *)
+  c_obs_panic : Z;                     (* observed: 0 = no panic; the process died with 1 = "send on closed channel",
+                                          2 = "close of closed channel", 3 = any other panic *)
   c_obs_returned : list (Z * Z * Z);   (* observed: (phase, thread, n): n calls had returned when the phase ended *)
   c_explore : bool                     (* tiny scenario: also explore every schedule *)
 }.
@@ -84,12 +85,20 @@ Definition sort_z (l : list Z) : list Z := fold_right insert_z [] l.
 Definition callbacks (tr : list event) : list Z :=
   flat_map (fun e => match e with ECallback _ p => [p_ev p] | _ => [] end) tr.
 
-Definition outcome := (list (list (list Z)) * list Z * bool)%type.
+Definition panic_code (p : option ppanic) : Z :=
+  match p with
+  | None => 0%Z
+  | Some PSendOnClosed => 1%Z
+  | Some PCloseOfClosed => 2%Z
+  | Some _ => 3%Z
+  end.
+
+Definition outcome := (list (list (list Z)) * list Z * Z)%type.
 
 Definition outcome_of (nprogs : nat) (c : config) : outcome :=
   (map (fun th => map enc_ret (th_rets th)) (firstn nprogs (c_threads c)),
    sort_z (callbacks (c_trace c)),
-   match c_panic c with Some SendOnClosed => true | _ => false end).
+   panic_code (c_panic c)).
 
 Definition zll_eqb := list_eqb (list_eqb Z.eqb).
 
@@ -97,20 +106,21 @@ Definition zll_eqb := list_eqb (list_eqb Z.eqb).
 Definition outcome_eqb (a b : outcome) : bool :=
   let '(ra, ta, pa) := a in
   let '(rb, tb, pb) := b in
-  Bool.eqb pa pb && (pa || (list_eqb zll_eqb ra rb && list_eqb Z.eqb ta tb)).
+  Z.eqb pa pb && (negb (pa =? 0)%Z || (list_eqb zll_eqb ra rb && list_eqb Z.eqb ta tb)).
 
 (* ---- guided run ---- *)
 
 Definition handed (ci : cid) (tr : list event) : nat :=
   length (filter (fun e => match e with EHandoff _ p => p_sub p =? ci | _ => false end) tr).
 
-(* the pair a thread is about to send, and the timeout in force *)
-Definition at_send (c : config) (th : thread) : option (pair * Z) :=
+(* the pair a thread is about to send, the timeout in force, and whether the sender is a
+   Sync publisher (which resolves its pairs strictly in order) *)
+Definition at_send (c : config) (th : thread) : option (pair * Z * bool) :=
   match th_pc th with
-  | PGoSend _ p timeout _ _ => Some (p, timeout)
+  | PGoSend _ p timeout _ _ => Some (p, timeout, false)
   | PLoop k o (p :: _) =>
       match snd (k_var k), nth_error (c_objs c) o with
-      | Sync, Some ob => Some (p, o_timeout ob)
+      | Sync, Some ob => Some (p, o_timeout ob, true)
       | _, _ => None
       end
   | _ => None
@@ -122,8 +132,14 @@ Definition find_receiver (c : config) (allowed : list tid) (ci : cid) : option t
                  | None => false
                  end) allowed.
 
-(* the choice a sender makes under the observation [exp]; None = it waits *)
-Definition guide (c : config) (allowed : list tid) (exp : list (list Z)) (p : pair) (timeout : Z) : option choice :=
+(* the choice a sender makes under the observation [exp]; None = it waits.
+   A sender whose value is not the next one its channel expects waits for the
+   other senders if its value is expected later, and takes the timer branch
+   otherwise; an in-order (Sync) sender cannot wait for anybody: with a positive
+   timeout it takes the timer branch at once (its value was received, if at
+   all, from a later pair with the same value). *)
+Definition guide (c : config) (allowed : list tid) (exp : list (list Z)) (p : pair) (timeout : Z) (ordered : bool)
+  : option choice :=
   let ci := p_sub p in
   match nth_error (c_chans c) ci with
   | None => None
@@ -136,7 +152,7 @@ Definition guide (c : config) (allowed : list tid) (exp : list (list Z)) (p : pa
           if ch_cap chn =? 0 then
             match find_receiver c allowed ci with Some r => Some (With r) | None => None end
           else Some Plain
-        else if (0 <? timeout)%Z && negb (existsb (Z.eqb (p_ev p)) rest) then Some Timer else None
+        else if (0 <? timeout)%Z && (ordered || negb (existsb (Z.eqb (p_ev p)) rest)) then Some Timer else None
     | [] => if (0 <? timeout)%Z then Some Timer else None
     end
   end.
@@ -146,8 +162,8 @@ Definition guided_step (c : config) (allowed : list tid) (exp : list (list Z)) (
   | None => None
   | Some th =>
     match at_send c th with
-    | Some (p, timeout) =>
-        match guide c allowed exp p timeout with
+    | Some (p, timeout, ordered) =>
+        match guide c allowed exp p timeout ordered with
         | Some ch => step c t ch
         | None => None
         end
